@@ -122,6 +122,18 @@ fn space_snap(s: &PacketSpace) -> SpaceSnap {
 }
 
 impl Connection {
+    /// Is this packet still tracked as sent and unresolved (neither acknowledged, nor declared lost, nor
+    /// abandoned with its packet number space)? `space`: 0 Initial, 1 Handshake, 2 Data
+    pub fn verif_packet_outstanding(&self, space: u8, pn: u64) -> bool {
+        use crate::packet::SpaceId;
+        let id = match space {
+            0 => SpaceId::Initial,
+            1 => SpaceId::Handshake,
+            _ => SpaceId::Data,
+        };
+        self.spaces[id].sent_packets.get(pn).is_some()
+    }
+
     /// Read-only projection of the state (verification hook)
     pub fn verif_snapshot(&self) -> Snapshot {
         use crate::packet::SpaceId;
